@@ -14,7 +14,9 @@ CONF = {
     'assumptions': [
         'explored histories keep the shortage discipline: while RLIMIT_NOFILE is lowered only the (re)configuration itself runs '
         '(no directory change, query or Refresh) — outside it the model refutes the property (C20_observe_equiv_new_refuted_without_discipline)',
-        'no same-directory device conflicts, nested or regular-file Spec directories in the generated directory contents (precedence is C01)',
+        'no same-directory device conflicts, nested or regular-file Spec directories in the generated directory contents (precedence between '
+        'directories is part of the machine: the definition in the directory listed last wins; same-directory conflicts are C01)',
+        'no reconfiguration while a watch event is pending (disagrees: notes/audit/DEFECT-C20-straggler-direrrors.md, history behind a switch)',
         'nothing else touches the per-history scratch directories',
     ],
     'search': [(2001, 'thorough')],
